@@ -38,7 +38,7 @@ structure SR (F P : Type) where
   toMeter : F
   fromGreenwich : F
   dtype : Nat           -- datum.datum_type: 1 = 3-param, 2 = 7-param, 3 = grid shift, 4 = WGS84, 5 = none
-  wgsCode : Bool        -- DatumCode == "WGS84"
+  wgsCode : Bool        -- strings.EqualFold(DatumCode, "WGS84") (fix b165df1: "wgs84" of a WKT reference counts)
   p : P                 -- every other field (read and written by the projection constructor)
 
 structure Core (F P Err : Type) where
